@@ -427,3 +427,153 @@ Proof.
         cbn [List.length]. rewrite (IH _ _ _ Hys). reflexivity. }
     lia.
 Qed.
+
+(* ------------------------------------------------------------------ the layout layer alone: lists of declarations *)
+Theorem ts_decls_recognised ds : Forall c10_tsg_decl_ok ds ->
+  c10_ts_recognise (List.concat (map ts_render_decl ds)) = Some (List.length ds).
+Proof.
+  intros H. assert (Hp : Forall (fun t => exists td, CFrag t td /\ DeclToks td) (map ts_render_decl ds)).
+  { apply Forall_map. revert H. apply Forall_impl. apply ts_render_decl_gram. }
+  destruct (parts_gram _ Hp) as (tds & Hf & Hd & Hl). rewrite map_length in Hl. rewrite <- Hl.
+  unfold c10_ts_recognise. rewrite (tk_run _ _ (cfrag_tk _ _ Hf)). apply decls_ok; [exact Hd|lia].
+Qed.
+
+(* a computable sufficient condition for the verbatim texts: identifier-shaped (string, Date, Uint8Array, MyType ...) *)
+Definition c10_tsg_cfg_simple (cfg : ts_config) : bool := forallb (fun kv => c10_ts_ident_ok (snd kv)) (ts_type_mappings cfg).
+Definition c10_tsg_field_simple (f : rfield) : bool :=
+  c10_tsg_key_ok (renamed (fid f)) && match type_override f TypeScript with Some o => c10_ts_ident_ok o | None => true end.
+Definition c10_tsg_item_simple (it : ritem) : bool :=
+  match it with
+  | ItStruct s => forallb c10_tsg_field_simple (sfields s)
+  | ItEnum (EAlgebraic tag content sh) =>
+    c10_ts_ident_ok tag && c10_ts_ident_ok content && match evariants sh with [] => false | _ => true end &&
+    forallb (fun v => match v with VAnon fs _ => forallb c10_tsg_field_simple fs | _ => true end) (evariants sh)
+  | _ => true
+  end.
+Definition c10_tsg_dom_simple (pd : parsed) : bool := forallb c10_tsg_item_simple (items_of pd).
+
+Lemma cfg_simple_ok cfg : c10_tsg_cfg_simple cfg = true -> c10_tsg_cfg_ok cfg.
+Proof.
+  unfold c10_tsg_cfg_simple, c10_tsg_cfg_ok. intros H. apply Proofs.C10Lex.forallb_Forall in H. revert H. apply Forall_impl.
+  intros kv Hkv. apply tytext_ident, Hkv.
+Qed.
+Lemma field_simple_ok f : c10_tsg_field_simple f = true -> c10_tsg_field_ok f.
+Proof.
+  unfold c10_tsg_field_simple, c10_tsg_field_ok. rewrite andb_true_iff. intros [Hk Ho]. split; [exact Hk|].
+  intros o E. rewrite E in Ho. apply tytext_ident, Ho.
+Qed.
+Lemma fields_simple_ok fs : forallb c10_tsg_field_simple fs = true -> Forall c10_tsg_field_ok fs.
+Proof. intros H. apply Proofs.C10Lex.forallb_Forall in H. revert H. apply Forall_impl. apply field_simple_ok. Qed.
+Lemma dom_simple_ok pd : c10_tsg_dom_simple pd = true -> c10_tsg_dom pd.
+Proof.
+  unfold c10_tsg_dom_simple, c10_tsg_dom. intros H. apply Proofs.C10Lex.forallb_Forall in H. revert H. apply Forall_impl.
+  intros [s | [sh | tag content sh] | a | c] Hit; cbn [c10_tsg_item_simple c10_tsg_item_ok] in *; try exact I.
+  - apply fields_simple_ok, Hit.
+  - rewrite !andb_true_iff in Hit. destruct Hit as [[[Ht Hc] Hne] Hvs]. split; [exact Ht|]. split; [exact Hc|]. split.
+    + intros E. rewrite E in Hne. discriminate.
+    + apply Proofs.C10Lex.forallb_Forall in Hvs. revert Hvs. apply Forall_impl. intros [vsh | t vsh | fs vsh] Hv; cbn [c10_tsg_variant_dom]; try exact I.
+      apply fields_simple_ok, Hv.
+Qed.
+
+Theorem ts_generate_recognised_simple uc cfg pd text :
+  unicode_ok uc -> Proofs.C10_TSFile.c10_ts_cfg_ok cfg = true -> c10_tsg_cfg_simple cfg = true ->
+  dom_C10 CTS pd = true -> c10_tsg_dom_simple pd = true ->
+  ts_generate uc cfg pd = Ok text -> exists n, c10_ts_recognise text = Some n /\ (List.length (items_of pd) <= n)%nat.
+Proof.
+  intros Huc Hcfg Gcfg Hdom Gdom. apply ts_generate_recognised; auto using cfg_simple_ok, dom_simple_ok.
+Qed.
+
+(* ------------------------------------------------------------------ non-vacuity *)
+Definition g_id (s : string) : id := {| original := lit s; renamed := lit s; via_serde_rename := false |}.
+Definition g_field (name : string) (ty : rtype) : rfield :=
+  {| fid := g_id name; fty := ty; fcomments := [lit "a doc line with ""quotes"", a star * and a slash /"]; has_default := false; fdecs := [] |}.
+Definition g_struct : rstruct :=
+  {| sid := g_id "Person"; sgenerics := [lit "T"; lit "U"];
+     sfields := [g_field "name" (RPrim PString);
+                 g_field "age" (ROption (RPrim PU32));
+                 g_field "tags" (RVec (RSimple (lit "T")));
+                 g_field "pair" (RArray (RPrim PF64) 2);
+                 g_field "born" (RPrim PDateTime);
+                 g_field "blob" (RSimple (lit "Bytes"));
+                 g_field "home" (RSimple (lit "Url"));
+                 g_field "index" (RHashMap (RPrim PString) (RGeneric (lit "Box") [RSimple (lit "U"); RVec (RPrim PBool)]));
+                 {| fid := {| original := lit "first_name"; renamed := lit "first-name"; via_serde_rename := true |}; fty := ROption (ROption (RPrim PString));
+                    fcomments := []; has_default := true; fdecs := [(TypeScript, [DWord (lit "readonly")])] |};
+                 {| fid := g_id "raw"; fty := RPrim PString; fcomments := [lit "one"; lit "two"]; has_default := false;
+                    fdecs := [(TypeScript, [DNameValue (lit "type") (lit "Array<string | number>[] | null")])] |}];
+     scomments := [lit "first line"; lit "second line"]; sdecs := []; sredacted := false |}.
+Definition g_alias : ralias :=
+  {| aid := g_id "Al"; agenerics := [lit "T"]; atype := ROption (ROption (RVec (RSimple (lit "T")))); acomments := [lit "an alias"]; adecs := []; aredacted := false |}.
+Definition g_unit_enum : renum :=
+  EUnit {| eid := g_id "Color"; egenerics := []; ecomments := [];
+           evariants := [VUnit {| vid := g_id "Red"; vcomments := [lit "the red one"] |};
+                         VUnit {| vid := {| original := lit "DarkBlue"; renamed := lit "dark-blue"; via_serde_rename := true |}; vcomments := [] |}];
+           edecs := []; erecursive := false; eredacted := false |}.
+Definition g_enum : renum :=
+  EAlgebraic (lit "type") (lit "content")
+    {| eid := g_id "E"; egenerics := [lit "T"]; ecomments := [lit "an enum"];
+       evariants := [VUnit {| vid := g_id "U"; vcomments := [] |};
+                     VTuple (RHashMap (RPrim PString) (ROption (RSimple (lit "T")))) {| vid := g_id "Tup"; vcomments := [lit "doc"] |};
+                     VTuple (ROption (ROption (RPrim PI32))) {| vid := g_id "Opt"; vcomments := [] |};
+                     VAnon [{| fid := {| original := lit "inner"; renamed := lit "in-ner"; via_serde_rename := true |}; fty := RPrim PU32; fcomments := []; has_default := false; fdecs := [] |};
+                            g_field "when" (RPrim PDateTime)] {| vid := g_id "S"; vcomments := [] |}];
+       edecs := []; erecursive := false; eredacted := false |}.
+Definition g_prog : parsed :=
+  {| p_structs := [g_struct]; p_enums := [g_unit_enum; g_enum]; p_aliases := [g_alias];
+     p_consts := [{| cid := g_id "maxRetries"; ctype := RPrim PI32; cvalue := Zneg 12 |}; {| cid := g_id "Limit"; ctype := RPrim PU8; cvalue := Zpos 250 |}];
+     p_type_names := []; p_errors := []; p_imports := [] |}.
+Definition g_cfg : ts_config :=
+  {| ts_type_mappings := [(lit "Url", lit "string"); (lit "Bytes", lit "Uint8Array")]; ts_no_version_header := false; ts_version := lit "1.46.0" |}.
+
+Definition g_text : str := match ts_generate uc_exec g_cfg g_prog with Ok t => t | _ => [] end.
+
+(* mutilations: the text without its last three characters; the text without its first opening brace; the text with its
+   first [=] turned into [:] *)
+Fixpoint g_drop_first (c : char) (s : str) : str :=
+  match s with [] => [] | x :: r => if x =? c then r else x :: g_drop_first c r end.
+Fixpoint g_subst_first (c d : char) (s : str) : str :=
+  match s with [] => [] | x :: r => if x =? c then d :: r else x :: g_subst_first c d r end.
+
+Lemma g_override_tytext : TyText (lit "Array<string | number>[] | null").
+Proof.
+  change (lit "Array<string | number>[] | null")
+    with ((lit "Array" ++ lit "<" ++ join (lit ", ") [lit "string" ++ lit " | " ++ lit "number"] ++ lit ">") ++ lit "[]" ++ lit " | null").
+  rewrite app_assoc. apply tytext_or_null. apply tytext_arr. apply tytext_app; [reflexivity|discriminate|].
+  constructor; [|constructor]. apply tytext_or; [reflexivity|]. apply tytext_ident. reflexivity.
+Qed.
+
+Example C10_grammar_nonvacuous :
+  unicode_ok uc_exec /\ Proofs.C10_TSFile.c10_ts_cfg_ok g_cfg = true /\ c10_tsg_cfg_ok g_cfg /\
+  dom_C10 CTS g_prog = true /\ c10_tsg_dom g_prog /\ known_C10 CTS [] g_prog = [] /\
+  ts_generate uc_exec g_cfg g_prog = Ok g_text /\
+  c10_ts_recognise g_text = Some 8%nat /\
+  contains_sub (lit "export interface Person<T, U> {") g_text = true /\
+  contains_sub (lit "readonly ""first-name""?: string | null;") g_text = true /\
+  contains_sub (lit "raw: Array<string | number>[] | null;") g_text = true /\
+  contains_sub (lit "index: Record<string, Box<U, boolean[]>>;") g_text = true /\
+  contains_sub (lit "pair: [number, number];") g_text = true /\
+  contains_sub (lit "export type Al<T> = T[] | null | undefined;") g_text = true /\
+  contains_sub (lit "DarkBlue = ""dark-blue"",") g_text = true /\
+  contains_sub (lit "| { type: ""Opt"", content?: number | null }") g_text = true /\
+  contains_sub (lit "export const MAX_RETRIES: number = -12;") g_text = true /\
+  contains_sub (lit "key === ""born"" || key === ""when""") g_text = true /\
+  contains_sub (lit "export const ReplacerFunc = ") g_text = true /\
+  c10_ts_recognise (firstn (List.length g_text - 3) g_text) = None /\
+  c10_ts_recognise (g_drop_first 123 g_text) = None /\
+  c10_ts_recognise (g_subst_first 61 58 g_text) = None.
+Proof.
+  split; [exact uc_exec_ok|]. split; [vm_compute; reflexivity|]. split.
+  { repeat constructor; apply tytext_ident; reflexivity. }
+  split; [vm_compute; reflexivity|]. split.
+  { assert (Hf : forall f, c10_tsg_key_ok (renamed (fid f)) = true -> type_override f TypeScript = None -> c10_tsg_field_ok f).
+    { intros f Hk Hn. split; [exact Hk|]. intros o E. rewrite Hn in E. discriminate. }
+    assert (Hraw : forall f, c10_tsg_key_ok (renamed (fid f)) = true ->
+                     type_override f TypeScript = Some (lit "Array<string | number>[] | null") -> c10_tsg_field_ok f).
+    { intros f Hk Hn. split; [exact Hk|]. intros o E. rewrite Hn in E. injection E as <-. exact g_override_tytext. }
+    unfold c10_tsg_dom. cbn [items_of g_prog p_aliases p_structs p_enums p_consts map app].
+    repeat (apply Forall_cons); try apply Forall_nil; try exact I;
+      try (apply Hf; vm_compute; reflexivity); try (apply Hraw; vm_compute; reflexivity).
+    split; [reflexivity|]. split; [reflexivity|]. split; [discriminate|].
+    repeat (apply Forall_cons); try apply Forall_nil; try exact I; try (apply Hf; vm_compute; reflexivity). }
+  repeat split; vm_compute; reflexivity.
+Qed.
